@@ -92,7 +92,14 @@ def using_contract(cid, params, extra_requires, window_ensures, descr, cls=None)
 
 UNCONF = ["cls.min_desired_rounds is None", "cls.max_desired_rounds is None"]
 INV_OK = [("the new class satisfies the policy invariant (window consistent, default inside it)", inv("result"))]
-INV_CHAIN = [("the new class satisfies the policy invariant (window consistent, default inside it) [using:chained-min-above-inherited-max]", inv("result"))]
+# recorded witness class: one limit given alone contradicts the inherited opposite limit
+CHAIN_WITNESS = ("((min_desired_rounds is not None and max_desired_rounds is None and " + eff("cls.max_desired_rounds") + " and min_desired_rounds > cls.max_desired_rounds) or "
+                 "(max_desired_rounds is not None and min_desired_rounds is None and " + eff("cls.min_desired_rounds") + " and max_desired_rounds < cls.min_desired_rounds) or "
+                 "(default_rounds is not None and False))")
+INV_CHAIN = [
+    ("the new class satisfies the policy invariant (outside the recorded witness class)", f"implies(not {CHAIN_WITNESS}, " + inv("result") + ")"),
+    ("the new class satisfies the policy invariant when a single limit contradicts the inherited one [using:chained-min-above-inherited-max]", f"implies({CHAIN_WITNESS}, " + inv("result") + ")"),
+]
 
 
 def fresh_cls():
